@@ -117,6 +117,37 @@ func c18Seq(o *out, c c18cond, windows [][2]time.Time, tag string) {
 	}
 	wsx.close()
 	rp := map[string]interface{}{"op": "set_time_range", "text": c.text, "windows": strings.Join(ws, ",")}
+	// correspondence first: the condition after every call, whatever the direct checks below say
+	{
+		st0 := &influxql.SelectStatement{Fields: st.Fields, Sources: st.Sources, Condition: influxql.CloneExpr(cond)}
+		var resp0 sb
+		resp0.open()
+		ok := true
+		for k, w := range windows {
+			var err error
+			if pn := safely(func() { err = st0.SetTimeRange(w[0], w[1]) }); pn != nil || err != nil {
+				ok = false
+				break
+			}
+			if k > 0 {
+				resp0.sp()
+			}
+			resp0.expr(st0.Condition)
+		}
+		resp0.close()
+		if ok {
+			copt := "(0)"
+			if cond != nil {
+				copt = "(1 " + exprSexp(cond) + ")"
+			}
+			req := "(30 " + copt + " " + wsx.String() + ")"
+			uses := false
+			if cond != nil {
+				req, uses = withSemOracles(req, cond)
+			}
+			o.addCaseVM(req, resp0.String(), "SetTimeRange x"+fmt.Sprint(len(windows))+" on "+c.text, !uses && asciiNoFloat(c.text))
+		}
+	}
 	var resp sb
 	resp.open()
 	shape := ""
@@ -187,16 +218,6 @@ func c18Seq(o *out, c c18cond, windows [][2]time.Time, tag string) {
 		}
 	}
 	resp.close()
-	copt := "(0)"
-	if cond != nil {
-		copt = "(1 " + exprSexp(cond) + ")"
-	}
-	req := "(30 " + copt + " " + wsx.String() + ")"
-	uses := false
-	if cond != nil {
-		req, uses = withSemOracles(req, cond)
-	}
-	o.addCaseVM(req, resp.String(), "SetTimeRange x"+fmt.Sprint(len(windows))+" on "+c.text, !uses && asciiNoFloat(c.text))
 }
 
 func propC18(o *out, r *rng, thorough bool) {
